@@ -147,7 +147,7 @@ def run(ctx, res):
                             s5 = s4.clone()
                             s5.pc.extend(rng)
                             s5.pc.append(lt(K, vcoll.count()))
-                            dec = [d_ for d_ in F.bodies if d_.endswith("MacroBlockEntry::decode")]
+                            dec = D.by_signature(["[u8; 4]"], "MacroBlockEntry", "feedback::sli::")
                             vals = None
                             if dec:
                                 bytes4 = ArrV([T.I.read_byte(s5, BUF, K.scale(4) + j) for j in range(4)])
@@ -193,12 +193,25 @@ def run(ctx, res):
 
 def nack_encoder(F, D, res):
     """(c) the NACK word generator's step relation: bit d-1 for 1 <= d <= 16, a new word iff d > 16, nothing dropped"""
-    nxt = [d for d in F.bodies if "NackBuilderEntryIter" in d and d.endswith("::next")]
+    # the word generator: the iterator behind the private method of the NACK builder that yields [u8; 4] words
+    adt0 = [a for a in F.adts if a.endswith("NackBuilder")]
+    ents = [it["def"] for it in (D.inherent(adt0[0]) if adt0 else []) if F.bodies.get(it["def"]) and F.bodies[it["def"]].get("ret") is not None and
+            "Iterator<Item = [u8; 4]>" in F.types[F.bodies[it["def"]]["ret"]]["s"]]
+    nxt = []
+    if ents:
+        I0 = Interp(F)
+        for s0, k0, it0 in I0.inline(ents[0], None, State(), [I0.symbolic(D.ty_index_of_adt(adt0[0]), ("b",))]):
+            if isinstance(it0, IterV) and it0.seq[0] == "custom":
+                it0 = it0.seq[1]
+            if isinstance(it0, StructV):
+                d0 = D.impl_item("std::iter::Iterator", it0.adt, "next")
+                if d0 and d0 not in nxt:
+                    nxt.append(d0)
     res.ob(bool(nxt), "anchor", "NackBuilderEntryIter::next", "NACK word generator exists")
     if nxt:
         adt = [a for a in F.adts if a.endswith("NackBuilder")][0]
         I = Interp(F)
-        ent = [it["def"] for it in D.inherent(adt) if it["name"] == "entries"][0]
+        ent = ents[0]
         recv = I.symbolic(D.ty_index_of_adt(adt), ("b",))
         steps = flush = 0
         for s, k, it in I.inline(ent, None, State(), [recv]):
@@ -208,9 +221,17 @@ def nack_encoder(F, D, res):
                 for lr in I.loop_reports:
                     if lr.fn != nxt[0]:
                         continue
+                    # the word in progress: the carried variable into which some step ORs a `1 << amount` term
+                    # (identified by what is done to it, not by its name)
+                    mask_atoms = set()
                     for delta, new in lr.backs:
                         for a, nv in new.items():
-                            if "bitmask" in a[1] and nv is not None and nv != Lin.atom(a):
+                            if nv is not None and nv != Lin.atom(a) and any(
+                                    x[0] == "opq" and isinstance(x[1], tuple) and x[1][0] == "shl" for x in atoms_deep(nv)):
+                                mask_atoms.add(a)
+                    for delta, new in lr.backs:
+                        for a, nv in new.items():
+                            if a in mask_atoms and nv is not None and nv != Lin.atom(a):
                                 # bitmask' = bitmask | (1 << amt)
                                 okb = False
                                 for x in atoms_deep(nv):
@@ -224,7 +245,7 @@ def nack_encoder(F, D, res):
                                 steps += 1
                                 res.compare(okb, "nack-transition", nxt[0],
                                             "NACK encoder: a sequence number at distance d = (seq - base) mod 2^16 in 1..=16 sets bit d-1 of the current word", detail=f"{nv}"[:200], pc=delta)
-                            elif "bitmask" in a[1] and nv is not None:
+                            elif a in mask_atoms and nv is not None:
                                 # the word in progress is left as it is: only legitimate for a repeated base (d = 0)
                                 diffs = [y for l in delta if l[0] in ("le", "eq", "ne") for y in atoms_deep(l[1]) if y[0] == "mod" and y[2] == 65536]
                                 if diffs:
